@@ -117,7 +117,7 @@ func zvTFollow(q vrt.ConcInst) bool {
 }
 
 func zvTRun(pid string, kinds []int, share, lin bool) {
-	vrt.ConcShapes = 2 // pairs and triples (2 x 2 programs over a tree do not fit the budget)
+	vrt.ConcShapes = 1 // pairs only, also in the thorough tier (triples over a tree exceed 25 min); thorough enlarges the pre-states instead
 	vrt.ConcSelectors = 2
 	pre := zvTPre(vrt.Pick(1, 2))
 	prog := vrt.ConcProgram(vrt.ConcShape(), kinds)
